@@ -19,16 +19,16 @@ ASSUMPTIONS = ["values annotated on non-note tokens (NaN or imputed) are not dem
                "monotonicity is demanded only for streams produced by tokenise"]
 REQUIRED_FLAGS = ["bar_in_partly_filled_bar", "signature_mid_bar_ignored", "signature_at_bar_start", "bare_running_value_token",
                   "rest_beyond_capacity", "note_after_rest", "imputation_on", "imputation_off", "graph_edge_replayed",
-                  "tokenise_stream_checked", "pad_start_stop", "graph_probe", "odd_resolution", "long_stream"] + ["pitch_class_%d" % i for i in range(12)]
+                  "tokenise_stream_checked", "pad_start_stop", "graph_probe", "odd_resolution", "long_stream", "every_signature_at_odd_resolution"] + ["pitch_class_%d" % i for i in range(12)]
 
 FL = list(itertools.product((True, False), repeat=4))   # running, fuse_track, fuse_value, fuse_velocity
 _TOKS = {}
 
 
-def tok(fl, nt=2, small=True, ppqn=24):
-    k = (tuple(fl), nt, small, ppqn)
+def tok(fl, nt=2, small=True, ppqn=24, tsr=(3, 4)):
+    k = (tuple(fl), nt, small, ppqn, tsr)
     if k not in _TOKS:
-        kw = dict(pitch_range=(60, 61), note_values=[12, 24], step_sizes=[12, 24], time_signature_range=(3, 4)) if small else \
+        kw = dict(pitch_range=(60, 61), note_values=[12, 24], step_sizes=[12, 24], time_signature_range=tsr) if small else \
             dict(pitch_range=(0, 127))       # the full MIDI range, both limits included
         if ppqn != 24:
             kw["ppqn"] = ppqn
@@ -58,6 +58,10 @@ def units(ctx):
         yield ("pitches", fi)
     for fi in (0, 15, 5):
         yield ("longstream", fi)
+    # every signature 2/8 ... 16/8 at odd and even resolutions (bar capacities that are not whole: 15 * 4 * 5 / 8 = 37.5)
+    for ppqn in (15, 9, 21, 25, 24):
+        for fi in (0, 15):
+            yield ("allsigs", fi, ppqn)
     # an odd resolution (15 ticks per quarter): bar capacities that are not multiples of the signature numerator
     for fi in (0, 15):
         t = tok(FL[fi], nt=1, ppqn=15)
@@ -368,6 +372,23 @@ def run_unit(unit, acc, ctx):
     elif kind == "graph":
         _, fi, imp = unit
         run_graph(acc, tok(FL[fi]), {"fl": list(FL[fi]), "nt": 2, "small": True}, imp, ctx["horizon"])
+    elif kind == "allsigs":
+        _, fi, ppqn = unit
+        t = tok(FL[fi], nt=1, ppqn=ppqn, tsr=(2, 16))
+        desc = {"fl": list(FL[fi]), "nt": 1, "small": True, "ppqn": ppqn, "tsr": [2, 16]}
+        sigs = [x for x in t.dictionary if x.startswith("tsg_")]
+        note = next(x for x in t.dictionary if "pit_" in x)
+        rest = next(x for x in t.dictionary if x.startswith("rst_"))
+        for sg in sigs:
+            for stream in ([sg, "bar", note], [sg, rest, "bar", "bar", note], [note, "bar", sg, "bar", note, rest, "bar", note],
+                           [rest, sg, "bar", sg, "bar", note]):
+                clock, info, notes = Clock(ppqn=t.ppqn), None, collections.Counter()
+                for i in range(len(stream)):
+                    v, clock, info, notes, facts = check_node(t, stream[: i + 1], False, clock, info if i else None, notes)
+                    record(acc, desc, False, stream[: i + 1], v, facts)
+                    if v or info is None or notes is None:
+                        break
+                acc.flags["every_signature_at_odd_resolution"] += 1
     elif kind == "longstream":
         # scale: a stream of several hundred tokens (cycling through the vocabulary with a stride), every token checked
         t = tok(FL[unit[1]])
@@ -398,7 +419,7 @@ def run_unit(unit, acc, ctx):
 
 
 def replay(case, ctx):
-    t = tok(tuple(case["fl"]), case["nt"], case["small"], case.get("ppqn", 24))
+    t = tok(tuple(case["fl"]), case["nt"], case["small"], case.get("ppqn", 24), tuple(case.get("tsr", (3, 4))))
     if "stream" in case:
         return replay_stream(t, case["stream"], case["impute"])[0]
     acc = core.Acc()
